@@ -82,3 +82,51 @@ func corpusFields() []*modSpec {
 		mk("tags-invalid-name", "package models\n\ntype T struct {\n\tA int `json:\"a\\\\b\"`\n\tB int `json:\"ok\"`\n}\n"),
 	}
 }
+
+func corpusCrash() []*modSpec {
+	mk := func(name, mod, pkg, src string, extra ...modFile) *modSpec {
+		return &modSpec{Name: name, ModPath: mod, Target: "models.go",
+			Files: append([]modFile{{"models.go", "package " + pkg + "\n\n" + src}}, extra...)}
+	}
+	std := "example.com/org/models"
+	return []*modSpec{
+		mk("one-letter-union", std, "models", "type U interface{ isU() }\ntype A struct{ X int }\nfunc (A) isU() {}\ntype S struct{ V U }\n"),
+		mk("two-letter-union", std, "models", "type Un interface{ isU() }\ntype A struct{ X int }\nfunc (A) isU() {}\ntype S struct{ V Un }\n"),
+		mk("short-subpackage-name", std, "models", "import \"example.com/org/models/ab\"\n\ntype S struct{ V ab.T; L []ab.T }\n", modFile{"ab/ab.go", "package ab\n\ntype T struct{ X int }\n"}),
+		mk("one-letter-subpackage", std, "models", "import \"example.com/org/models/s\"\n\ntype S struct{ V s.T; E s.E }\n", modFile{"s/s.go", "package s\n\ntype T struct{ X int }\ntype E int\nconst (\n\tEA E = iota\n\tEB\n)\n"}),
+		mk("short-package-name", "example.com/org/m", "m", "type U interface{ isU() }\ntype A struct{ X int }\nfunc (A) isU() {}\ntype S struct{ V U; L []int }\n"),
+		mk("multi-name-const", std, "models", "type K int\n\nconst KA, KB K = 0, 1\n\ntype S struct{ V K }\n"),
+		mk("generic-basic-arg", std, "models", "type S struct {\n\tA Generic[int]\n\tB Generic[string]\n}\n", modFile{"other.go", "package models\n\ntype Generic[T any] struct {\n\tV T\n\tValid bool\n}\n"}),
+		mk("generic-named-arg", std, "models", "type IdX int64\ntype S struct {\n\tA Generic[IdX]\n}\n", modFile{"other.go", "package models\n\ntype Generic[T any] struct {\n\tV T\n\tValid bool\n}\n"}),
+		mk("named-pointer", std, "models", "type T struct{ X int }\ntype P *T\ntype S struct{ V P }\n"),
+		mk("self-pointer", std, "models", "type P *P\ntype S struct{ V P }\n"),
+		mk("pointer-cycle-struct", std, "models", "type N struct{ Next *N }\n"),
+		mk("enum-trailing-underscore", std, "models", "type Kind int\n\nconst (\n\tKind_ Kind = iota\n\tKind_B\n)\n\ntype S struct{ K Kind }\n"),
+		mk("enum-one-letter-member", std, "models", "type E int\n\nconst (\n\tA E = iota\n\tB\n)\n\ntype S struct{ V E }\n"),
+		mk("enum-no-exported-member", std, "models", "type E int\n\nconst (\n\ta E = iota\n\tb\n)\n\ntype S struct{ V E }\n"),
+		mk("chan-field", std, "models", "type S struct{ C chan int }\n"),
+		mk("func-field", std, "models", "type S struct{ F func() }\n"),
+		mk("anon-struct-field", std, "models", "type S struct{ A struct{ X int } }\n"),
+		mk("complex-field", std, "models", "type S struct{ Z complex128 }\n"),
+		mk("empty-interface-field", std, "models", "type S struct{ V interface{}; W any }\n"),
+		mk("foreign-interface-field", std, "models", "import \"fmt\"\n\ntype S struct{ V fmt.Stringer; E error }\n"),
+		mk("anon-slice-of-union", std, "models", "type U interface{ isU() }\ntype A struct{ X int }\nfunc (A) isU() {}\ntype S struct{ L []U; M map[string]U }\n"),
+		mk("type-param-in-file", std, "models", "type G[T any] struct{ V T }\ntype S struct{ A G[int] }\n"),
+		mk("named-func-chan", std, "models", "type F func(int) string\ntype C chan bool\ntype S struct{ X int }\n"),
+		mk("named-interface-no-member", std, "models", "type I interface{ M() }\ntype S struct{ V I }\n"),
+		mk("uintptr-unsafe", std, "models", "import \"unsafe\"\n\ntype S struct{ U uintptr; P unsafe.Pointer }\n"),
+		mk("array-of-slices", std, "models", "type S struct{ A [2][]int; B [3]map[string]int }\n"),
+		mk("sql-unknown-enum-placeholder", std, "models", "type E int\nconst (\n\tEA E = iota\n)\n\n// gomacro:SQL ADD CHECK(V = #[Nope.EA])\ntype S struct {\n\tId int64\n\tV E\n}\n"),
+		mk("sql-placeholder-not-enum", std, "models", "type N int\n\n// gomacro:SQL ADD CHECK(V = #[N.X])\ntype S struct {\n\tId int64\n\tV N\n}\n"),
+		mk("sql-placeholder-unknown-member", std, "models", "type E int\nconst (\n\tEA E = iota\n)\n\n// gomacro:SQL ADD CHECK(V = #[E.Missing])\ntype S struct {\n\tId int64\n\tV E\n}\n"),
+		mk("sql-select-key-unknown-column", std, "models", "// gomacro:SQL _SELECT KEY(Nope)\ntype S struct {\n\tId int64\n\tV int\n}\n"),
+		mk("sql-unique-unknown-column", std, "models", "// gomacro:SQL ADD UNIQUE(Nope, V)\ntype S struct {\n\tId int64\n\tV int\n}\n"),
+		mk("sql-unknown-comment-kind", std, "models", "// gomacro:WHATEVER x\ntype S struct {\n\tId int64\n}\n"),
+		mk("sql-query-unknown-field", std, "models", "// gomacro:QUERY DoIt UPDATE S SET V = 1 WHERE Nope = $x$\ntype S struct {\n\tId int64\n\tV int\n}\n"),
+		mk("sql-foreign-tag-bad-type", std, "models", "type S struct {\n\tId int64\n\tV string `gomacro-sql-foreign:\"T\"`\n}\ntype T struct{ Id int64 }\n"),
+		mk("time-lookalike-struct", std, "models", "import \"time\"\n\ntype Fake struct {\n\twall uint64\n\text  int64\n\tloc  *time.Location\n}\n\ntype S struct{ F Fake }\n"),
+		mk("empty-file-no-types", std, "models", "const X = 1\n"),
+		mk("table-without-columns", std, "models", "type S struct{}\n"),
+		mk("table-only-id", std, "models", "type S struct{ Id int64 }\n"),
+	}
+}
